@@ -3,7 +3,7 @@ import torch
 from hypothesis import strategies as st
 from torch import nn
 
-from .. import sdes, solve
+from .. import core, sdes, solve
 from ..core import Fail, Result
 
 ID = "C16"
@@ -159,7 +159,7 @@ def _iface_case(draw, tier):
 def _ops_case(draw, tier):
     spec = draw(sdes.generic_specs(max_d=4, max_m=3))
     return {"kind": "ops", "spec": spec, "seed": draw(st.integers(0, 2 ** 31 - 1)),
-            "t": draw(st.sampled_from([0.0, 0.3, 1.7, -0.4])), "grad_enabled": draw(st.booleans())}
+            "t": draw(st.sampled_from([0.0, 0.3, 1.7, -0.4])), "ctx": draw(st.sampled_from(list(core.GRAD_CTXS)))}
 
 
 def strategy(tier):
@@ -184,6 +184,16 @@ def enumerate_cases(tier):
             yield {"kind": "iface", "spec": spec, "combo": combo, "variant": variant, "entropy": rnd.randrange(2 ** 31 - 2),
                    "time": {"t0": 0.2, "t1": 0.2 + 3 * 0.25, "dt": 0.25, "tdtype": "float64"},
                    "frozen_norm": rnd.random() < 0.4, "default_method": rnd.random() < 0.25}
+    # derived operators: every noise type (both calculi share them) in every autograd context a caller may be in
+    idx = 0
+    for nt in sdes.NOISE_TYPES:
+        for ctx in core.GRAD_CTXS:
+            idx += 1
+            rnd = random.Random(seed * 4003 + idx)
+            spec = {"sde_type": "stratonovich", "noise_type": nt, "d": 3, "m": 1 if nt == "scalar" else 3, "batch": 2,
+                    "hidden": 3, "seed": rnd.randrange(2 ** 31), "tdep": True, "fscale": 1.0, "gscale": 0.7,
+                    "dtype": "float64"}
+            yield {"kind": "ops", "spec": spec, "seed": rnd.randrange(2 ** 31), "t": 0.3, "ctx": ctx}
 
 
 def run_case(case):
@@ -329,7 +339,8 @@ def _run_ops(case):
     J = _jac_g(sde, t, y)                                          # (B, d, m, d)
     fwd = base_sde.ForwardSDE(sde)
     fwd_fast = base_sde.ForwardSDE(sde, fast_dg_ga_jvp_column_sum=True)
-    ctx = torch.enable_grad() if case["grad_enabled"] else torch.no_grad()
+    ctx_name = case.get("ctx") or ("grad" if case.get("grad_enabled") else "no_grad")
+    ctx = core.grad_ctx(ctx_name)
     scale = max(1.0, float(J.abs().max()) * float(G.abs().max()))
     worst = {}
 
@@ -346,6 +357,8 @@ def _run_ops(case):
         return None
 
     with ctx:
+        # what a solver hands over are tensors made in the caller's context (inference tensors under torch.inference_mode)
+        y, v1, v2, A, t, g = y.clone(), v1.clone(), v2.clone(), A.clone(), t.clone(), g.clone()
         # diffusion-vector product
         want = torch.einsum("bil,bl->bi", G, v1)
         r = cmp("prod", fwd.prod(g, v1), want, "operator:prod") or \
@@ -377,7 +390,7 @@ def _run_ops(case):
                     pass  # not claimed by the property for non-commutative special structure
     # symmetric-Jacobian detector (for non-triviality): sum_j J[b,i,l,j] G[b,j,l] vs sum_j J[b,j,l,i] G[b,j,l]
     asym = float((torch.einsum("bilj,bjl->bil", J, G) - torch.einsum("bjli,bjl->bil", J, G)).abs().max())
-    labels = ["kind=ops", f"noise={nt}", "grad_enabled" if case["grad_enabled"] else "no_grad"]
+    labels = ["kind=ops", f"noise={nt}", f"ops:ctx={ctx_name}"]
     if asym > 1e-6:
         labels.append("nonsymmetric_jacobian")
     nontrivial = (asym > 1e-6) if nt in ("scalar", "general") else float(J.abs().max()) > 0 or nt == "additive"
